@@ -23,7 +23,7 @@ def configs(tier):
         archs = [(1, 1, 1), (2, 1, 2), (2, 2, 1), (1, 2, 2)]
     else:
         archs = [(a, b, c) for a in (1, 2, 3) for b in (1, 2, 3) for c in (1, 2, 3)] + [(2, 4, 2), (2, 2, 4), (4, 1, 1), (1, 4, 4)]
-    return [{"nv": a, "nh": b, "na": c} for (a, b, c) in archs] + [{"generic": "every shape"}, {"lean": "size-generic lemmas"}]
+    return [{"nv": a, "nh": b, "na": c} for (a, b, c) in archs] + [{"generic": "every shape"}, {"lean": "size-generic lemmas"}, {"independence": "mixed"}]
 
 
 def canaries(tier):
@@ -47,6 +47,11 @@ def Psi(am, ph, v, a, ctx=None, tag=""):
 
 
 def run_config(ctx, cfg):
+    if cfg.get("independence"):
+        # the amplitude and the phase network are independent objects on every construction route (also module=): what one
+        # network holds never follows the other
+        from lemmas import C20
+        return C20._module(ctx, {"kind": cfg["independence"]})
     if cfg.get("lean"):
         from contracts import leanlink
         return leanlink.run(ctx, "C02")
@@ -232,6 +237,9 @@ def run_config(ctx, cfg):
 
 
 def replay(o):
+    if o["cfg"].get("independence"):
+        from drivers import C20 as D20
+        return D20.replay({"part": "module", "kind": o["cfg"]["independence"]})
     if o["cfg"].get("generic"):
         from contracts import gsets
         return gsets.replay("C02", o)
